@@ -5,7 +5,7 @@ import json, os
 H = []
 
 QUICK = {
-    "C01": ["fub_poll_c2", "fub_poll_c2_inflight", "fub_poll_c2_handles", "fub_wake_c2", "fub_wake_c2_inflight", "fub_push_c2", "fub_poll_budget", "mb_poll_c2"],
+    "C01": ["fub_poll_c2", "fub_poll_c2_inflight", "fub_poll_c2_handles", "fub_wake_c2", "fub_wake_c2_inflight", "fub_push_c2", "fub_poll_budget", "fub_poll_budget_61", "mb_poll_c2"],
     "C02": ["fub_poll_c2", "fub_push_c2", "fu_poll_2", "fu_push_12", "fob_poll_c2"],
     "C04": ["fob_poll_c2", "fob_poll_c2_p0", "fob_push_c2", "ad_bo_n2_p0", "ja_poll_n2"],
     "C05": ["fub_poll_c2", "mb_poll_c2", "ja_poll_n2", "fub_poll_c2_handles"],
@@ -14,13 +14,15 @@ QUICK = {
     "C08": ["fub_poll_c2", "fu_poll_2", "fu_push_12", "fu_push_2"],
     "C09": ["ad_bu_n2", "ad_tbu_n2", "ad_fe_n1", "ad_bo_n2_p0"],
     "C10": ["ad_bu_n2", "ad_tbu_n2", "ad_fe_n1", "ad_fe_n0", "ad_bo_n2_p0"],
-    "C11": ["mb_poll_c2", "mu_poll_12_c0"],
+    "C11": ["mb_poll_c2", "mu_poll_12_c0", "mu_poll_12_c1"],
     "C12": ["fub_poll_c2", "fub_wake_c2", "fub_push_c2", "mb_poll_c2"],
-    "C13": ["fub_poll_c2", "fub_poll_budget", "mu_poll_12_c0", "mu_poll_12_c1", "fu_poll_2"],
+    "C13": ["fub_poll_c2", "fub_poll_budget", "fub_poll_budget_61", "mu_poll_12_c0", "mu_poll_12_c1", "fu_poll_2"],
     "C14": ["fub_poll_c2_quiet", "fub_wake_c2", "fub_push_c2", "fub_drop_c2"],
     "C15": ["fub_poll_c2", "fub_push_c2", "fub_push_c0", "fob_push_c2", "fob_new", "fo_new", "fu_push_12"],
     "C16": ["ad_bo_n2", "ad_tbo_n2"],
     "C17": ["fub_poll_c2", "fob_poll_c2", "ad_bu_n2", "ad_tbu_n2", "ad_bo_n2"],
+    "C03": ["wl_shape0_c2", "wl_shape1_c2", "wl_shape2_c2", "wl_fifo_c2"],
+    "C18": ["fub_poll_c2", "fub_push_c2", "fub_wake_c2", "ja_poll_n2", "fu_push_12", "fu_poll_2", "ad_bu_n2"],
 }
 
 def h(name, props, tiers, unwind=6, unwindset=None, covers=(), timeout=900, mem=8, layer="model",
@@ -37,7 +39,7 @@ Q, T, QT = ["quick"], ["thorough"], ["quick", "thorough"]
 POLL = "poll_inner_no_remove#0"
 
 # ---------------------------------------------------------------- FuturesUnorderedBounded
-FUB_POLL = ["C01", "C02", "C05", "C08", "C12", "C13", "C14", "C15", "C17"]
+FUB_POLL = ["C01", "C02", "C05", "C08", "C12", "C13", "C14", "C15", "C17", "C18"]
 W_FUB = ("FuturesUnorderedBounded<Fut>: ONE poll_next from an arbitrary INV pre-state (occupancy, free list, "
          "ready queue incl. stale entries of vacant slots, registration, ghost needs-poll relation), symbolic child answers")
 h("fub_poll_c2", FUB_POLL, QT, covers=["cover:yield", "cover:none", "cover:pending", "cover:pending_woken"],
@@ -57,18 +59,22 @@ h("fub_poll_c2_handles", ["C01", "C12", "C05"], QT, timeout=1200, covers=["cover
 h("fub_poll_c2_env", ["C01", "C12"], T, timeout=1800, covers=["cover:pending", "cover:yield"], inflight=True,
   what=W_FUB + "; retained wakers; one racing event (wake / first half / second half of a wake on another thread) at any operation boundary; in-flight entries in the pre-state",
   bounds="capacity 2; <=1 racing event; two-phase enqueues")
-h("fub_poll_budget", ["C13", "C01", "C14"], QT, unwind=6, unwindset={POLL: 63}, timeout=1800,
-  covers=["cover:pending_woken", "cover:budget_exhausted"],
-  what="FuturesUnorderedBounded<Fut> capacity 1, the child may wake itself on EVERY poll: the per-poll budget (61) is reached",
-  bounds="capacity 1; <=62 self-wakes; poll loop unwound 63")
+W_BUD = ("FuturesUnorderedBounded<Spin> capacity 1: the child wakes itself on every poll until its k-th poll; "
+         "the per-poll budget (61) is reached exactly when k > 61, the task is then woken; symbolic task waker")
+h("fub_poll_budget", ["C13", "C01", "C14", "C12"], QT, unwind=6, unwindset={POLL: 63}, timeout=1200,
+  covers=["cover:budget_exhausted"], what=W_BUD, bounds="k = 100 (> budget); poll loop unwound 63 (budget 61 + 2)")
+h("fub_poll_budget_61", ["C13", "C01", "C14", "C12"], QT, unwind=6, unwindset={POLL: 63}, timeout=1200,
+  covers=["cover:within_budget"], what=W_BUD, bounds="k = 61 (= budget)")
+h("fub_poll_budget_3", ["C13", "C14", "C12"], T, unwind=6, unwindset={POLL: 63}, timeout=1200,
+  covers=["cover:within_budget"], what=W_BUD, bounds="k = 3")
 W_PUSH = "FuturesUnorderedBounded<Fut>: ONE try_push from an arbitrary INV pre-state (full or not, stale queue entry on the free slot or not)"
-h("fub_push_c2", ["C15", "C02", "C01", "C12", "C14", "C17"], QT, covers=["cover:push_ok", "cover:push_refused", "cover:push_reuses_stale_entry"],
+h("fub_push_c2", ["C15", "C02", "C01", "C12", "C14", "C17", "C18"], QT, covers=["cover:push_ok", "cover:push_refused", "cover:push_reuses_stale_entry"],
   what=W_PUSH, bounds="capacity 2")
 h("fub_push_c0", ["C15"], QT, covers=["cover:push_refused"], what=W_PUSH, bounds="capacity 0")
 h("fub_push_c2_inflight", ["C01", "C15"], T, covers=["cover:push_ok"], inflight=True, what=W_PUSH + "; enqueues in flight", bounds="capacity 2")
 W_WAKE = ("FuturesUnorderedBounded<Fut>: the environment invokes (wake_by_ref / wake / clone+drop) the waker of an arbitrary slot "
           "(held child, or STALE: vacant slot) in an arbitrary INV pre-state, incl. 'task sleeping after a Pending poll with waker T'")
-h("fub_wake_c2", ["C01", "C12", "C14", "C02"], QT, covers=["cover:wake_notifies", "cover:wake_coalesced", "cover:stale_wake"], what=W_WAKE, bounds="capacity 2")
+h("fub_wake_c2", ["C01", "C12", "C14", "C02", "C18"], QT, covers=["cover:wake_notifies", "cover:wake_coalesced", "cover:stale_wake"], what=W_WAKE, bounds="capacity 2")
 h("fub_wake_c2_inflight", ["C01", "C12", "C14"], QT, covers=["cover:wake_notifies", "cover:stale_wake"], inflight=True,
   what=W_WAKE + "; the two halves of a wake racing on another thread as separate steps", bounds="capacity 2")
 h("fub_drop_c2", ["C06", "C14", "C05"], QT, covers=["cover:drop_full"],
@@ -110,28 +116,28 @@ h("fo_new", ["C15"], QT, covers=["cover:cap0"], panic_is_violation=True,
 
 # ---------------------------------------------------------------- merges
 MB_US = {"MergeBounded.*poll_next#0": 4, POLL: 5}
-h("mb_poll_c2", ["C11", "C05", "C01", "C12", "C06"], QT, unwindset=MB_US, timeout=1200,
+h("mb_poll_c2", ["C11", "C05", "C01", "C12", "C06", "C18"], QT, unwindset=MB_US, timeout=1200,
   covers=["cover:item", "cover:pending", "cover:none_after_ends"],
   what="MergeBounded<Src>: ONE poll_next from an arbitrary INV pre-state; sources are scripted streams of numbered items with Pending gaps and end",
   bounds="2 sources; <=1 self-wake; merge loop unwound 4, poll loop 5")
 h("mb_poll_c2_quiet", ["C14"], T, unwindset=MB_US, timeout=1200, covers=["cover:pending"], what="MergeBounded<Src>, quiet environment", bounds="2 sources")
 W_MU = ("MergeUnbounded<Src> with two groups: ONE poll_next from an arbitrary pre-state; a designated VICTIM source is queued in one group; "
         "ranking obligation: if the victim is not polled by this call it must be nearer to its turn afterwards (cursor distance, queue position)")
-h("mu_poll_12_c0", ["C13", "C11", "C01"], QT, unwindset=MB_US, timeout=1500, covers=["cover:item_from_other", "cover:pending"], what=W_MU, bounds="groups (1,2); cursor 0")
+h("mu_poll_12_c0", ["C13", "C11", "C01", "C18"], QT, unwindset=MB_US, timeout=1500, covers=["cover:item_from_other", "cover:pending"], what=W_MU, bounds="groups (1,2); cursor 0")
 h("mu_poll_12_c1", ["C13", "C11", "C01"], QT, unwindset=MB_US, timeout=1500, covers=["cover:item_from_other", "cover:pending"], what=W_MU, bounds="groups (1,2); cursor 1")
 
 # ---------------------------------------------------------------- adapters
 AD_US = {POLL: 5}
 W_AD = ("ONE poll from an arbitrary pre-state: upstream present (arbitrary remaining items, honest size_hint) or gone; "
         "in-flight collection in an arbitrary INV state; scripted upstream: item / Pending / end (/ error)")
-h("ad_bu_n2", ["C09", "C10", "C17", "C01", "C02"], QT, unwindset=AD_US, covers=["cover:item", "cover:pending", "cover:end"],
+h("ad_bu_n2", ["C09", "C10", "C17", "C01", "C02", "C18"], QT, unwindset=AD_US, covers=["cover:item", "cover:pending", "cover:end"],
   what="buffered_unordered(2): " + W_AD, bounds="n=2; <=2 upstream items remaining")
 h("ad_bu_n1", ["C09", "C10", "C17"], T, unwindset=AD_US, covers=["cover:item", "cover:pending", "cover:end"],
   what="buffered_unordered(1): " + W_AD, bounds="n=1; <=1 self-wake")
-h("ad_tbu_n2", ["C09", "C10", "C17"], QT, unwindset=AD_US, covers=["cover:item", "cover:pending", "cover:end", "cover:upstream_err_keeps_inflight"],
+h("ad_tbu_n2", ["C09", "C10", "C17", "C18"], QT, unwindset=AD_US, covers=["cover:item", "cover:pending", "cover:end", "cover:upstream_err_keeps_inflight"],
   what="try_buffered_unordered(2): " + W_AD, bounds="n=2")
 FE_US = {POLL: 5, "ForEachConcurrent.*poll#0": 5}
-h("ad_fe_n1", ["C09", "C10", "C05"], QT, unwindset=FE_US, timeout=1200, covers=["cover:complete", "cover:pending"],
+h("ad_fe_n1", ["C09", "C10", "C05", "C18"], QT, unwindset=FE_US, timeout=1200, covers=["cover:complete", "cover:pending"],
   what="for_each_concurrent(1, f): " + W_AD, bounds="n=1; <=1 upstream item remaining")
 h("ad_fe_n2", ["C09", "C10"], T, unwindset={POLL: 5, "ForEachConcurrent.*poll#0": 7}, timeout=2400, mem=20, covers=["cover:complete", "cover:pending"],
   what="for_each_concurrent(2, f): " + W_AD, bounds="n=2; <=1 upstream item remaining")
@@ -146,13 +152,39 @@ h("ad_tbo_n2", ["C16", "C09", "C10", "C17"], QT, unwindset=BO_US, timeout=1200, 
   what="try_buffered_ordered(2): " + W_AD + "; 1 parked output", bounds="n=2")
 
 # ---------------------------------------------------------------- join_all
-JA_US = {POLL: 4, "JoinAll.*poll#0": 4}
-h("ja_poll_n2", ["C06", "C07", "C04", "C05"], QT, unwindset=JA_US, covers=["cover:ready", "cover:pending_partial"],
+JA_US = {POLL: 4, "JoinAll.*poll#0": 4, "TryJoinAll.*poll#1": 3, "drop_outputs#0": 3, "JoinAll<.*Drop>::drop#0": 3}
+h("ja_poll_n2", ["C06", "C07", "C04", "C05", "C18"], QT, unwindset=JA_US, covers=["cover:ready", "cover:pending_partial"],
   what="join_all of 2 inputs: ONE poll from an arbitrary INV_join pre-state (result slot written <=> input finished), then the result - or the still pending combinator - is dropped; outputs are drop-counted tokens",
   bounds="2 inputs")
-h("tja_poll_n2", ["C06", "C07", "C04"], QT, unwindset=JA_US, timeout=1500, covers=["cover:ok", "cover:pending", "cover:poll_after_err", "cover:err_with_collected_outputs"],
+h("tja_poll_n2", ["C06", "C07", "C04", "C18"], QT, unwindset=JA_US, timeout=1500, mem=16, covers=["cover:ok", "cover:pending", "cover:poll_after_err", "cover:err_with_collected_outputs"],
   what="try_join_all of 2 inputs: ONE poll from an arbitrary INV_join pre-state; after an Err the combinator is dropped or polled AGAIN",
   bounds="2 inputs")
+
+# ---------------------------------------------------------------- Layer W: the real waker_list.rs
+WL_US = {"SpinMutex.*lock": 1, "DiatomicWaker.*notify": 1, "try_unlock": 1, "try_lock": 1, "MpscQueue.*drop": 3}
+W_WL = ("REAL waker_list.rs + cordyceps + diatomic-waker + spin under Kani with memory-safety checks ON (pointer validity, "
+        "deallocated-object dereference, double free, bounds): ")
+W_SH = ("new(cap); [register(A)]; push(i); pop -> borrowed waker of slot i (symbolic i); clone it; then the collection and the clone die in a fixed order "
+        "with a wake in between; probes in new()/drop_inner(): the shared block is allocated once, released exactly once, and only when the last owner is gone; "
+        "a wake after the collection is gone only wakes the registered task")
+for order, txt in ((0, "collection dropped first, wake_by_ref through the clone, clone dropped last"),
+                   (1, "wake_by_ref, clone dropped first, collection last"),
+                   (2, "collection dropped first, wake (by value) consumes the last owner")):
+    for cap, tiers in ((2, QT),):
+        h("wl_shape%d_c%d" % (order, cap), ["C03"], tiers, layer="real", checks="memsafe", unwind=4, unwindset=WL_US, timeout=1500, mem=14,
+          covers=["cover:end"], what=W_WL + W_SH + "; order: " + txt, bounds="capacity %d (slot index symbolic); CAS/spin loops unwound 1 (sequential), unwinding assertions on" % cap)
+h("wl_shape0_c1", ["C03"], T, layer="real", checks="memsafe", unwind=4, unwindset=WL_US, timeout=1500, mem=14, covers=["cover:end"], what=W_WL + W_SH, bounds="capacity 1")
+h("wl_shape0_c3", ["C03"], T, layer="real", checks="memsafe", unwind=5, unwindset=WL_US, timeout=2400, mem=20, covers=["cover:end"], what=W_WL + W_SH, bounds="capacity 3")
+h("wl_shape2_c3", ["C03"], T, layer="real", checks="memsafe", unwind=5, unwindset=WL_US, timeout=2400, mem=20, covers=["cover:end"], what=W_WL + W_SH, bounds="capacity 3")
+h("wl_fifo_c2", ["C03", "C01", "C12", "C13", "C14"], QT, layer="real", checks="memsafe", unwind=4, unwindset=WL_US, timeout=1800, mem=14, covers=["cover:two_slots"],
+  what=W_WL + "register(A)[, register(B)]; wake slot i, wake slot j, wake slot i again (symbolic i, j); pops: FIFO order, duplicates coalesced, exactly one notification of the MOST RECENTLY registered waker, re-arming by a new register",
+  bounds="capacity 2")
+h("wm_lifecycle_c2", ["C03"], T, unwind=5, covers=["cover:end", "cover:wake_after_collection_gone"],
+  what="reference model only: the collection and up to two cloned wakers die in a SYMBOLIC order (3 rounds of drop / wake_by_ref / wake), block released exactly once and only by the last owner",
+  bounds="capacity 2; 3 rounds")
+for n in ("wm_fifo_c2", "wm_shape0_c2", "wm_shape1_c2", "wm_shape2_c2"):
+    h(n, ["C03"] if "shape" in n else ["C01", "C12", "C14"], T, covers=["cover:end"] if "shape" in n else ["cover:two_slots"],
+      what="the Layer W shape " + n.replace("wm_", "wl_") + " on the reference model: the model gives the same observable answers as the real list (refinement evidence for Layer U)", bounds="capacity 2")
 
 ASSUME_COMMON = [
     "bounded model checking: every claim holds for the stated capacities / group counts / self-wake and event budgets only",
